@@ -82,7 +82,8 @@ func c02Exec(input sx.S) (obs sx.S) {
 	for _, asg := range section(secs, "assignments") {
 		al := sx.List(asg)
 		register := al[1].(string) != "0"
-		regFields := al[1].(string) == "2"
+		regFields := al[1].(string) == "2" || al[1].(string) == "3"
+		lateFields := al[1].(string) == "3" // RegisterField after the fields were bound by a first round of the calls
 		strat := map[int]byte{}
 		anyUsed, reflUsed := false, false
 		for _, p := range al[2:] {
@@ -96,12 +97,12 @@ func c02Exec(input sx.S) (obs sx.S) {
 				reflUsed = true
 			}
 		}
-		out = append(out, c02Run(secs, strat, register, regFields, anyUsed, reflUsed))
+		out = append(out, c02Run(secs, strat, register, regFields, lateFields, anyUsed, reflUsed))
 	}
 	return out
 }
 
-func c02Run(secs []sx.S, strat map[int]byte, register, regFields, anyUsed, reflUsed bool) (obs sx.S) {
+func c02Run(secs []sx.S, strat map[int]byte, register, regFields, lateFields, anyUsed, reflUsed bool) (obs sx.S) {
 	defer func() {
 		if r := recover(); r != nil {
 			obs = sx.L("panic", sx.Hex(fmt.Sprint(r)))
@@ -186,7 +187,7 @@ func c02Run(secs []sx.S, strat map[int]byte, register, regFields, anyUsed, reflU
 			}
 		}
 	}
-	if regFields {
+	registerFields := func() sx.S {
 		// explicit field registration with the Go parameters in the reverse of the SDL order
 		for key, names := range w.decl {
 			if strat[key[0]] != 'F' || len(names) < 2 {
@@ -205,8 +206,36 @@ func c02Run(secs []sx.S, strat map[int]byte, register, regFields, anyUsed, reflU
 			}
 			w.regOrder[key] = rev
 		}
+		return nil
+	}
+	if regFields && !lateFields {
+		if e := registerFields(); e != nil {
+			return e
+		}
 	}
 	text, _ := docText(section(secs, "doc"))
+	if lateFields {
+		// the fields are bound on first use by a round of the same calls, then registered another way
+		for _, c := range section(secs, "calls") {
+			cl := sx.List(c)
+			opName := ""
+			if cl[1].(string) != "-" {
+				opName = "O" + cl[1].(string)
+			}
+			var vars map[string]interface{}
+			if vs := sx.List(cl[2])[1:]; len(vs) > 0 {
+				vars = map[string]interface{}{}
+				for _, v := range vs {
+					vl := sx.List(v)
+					vars["v"+vl[0].(string)] = jsonValue(vl[1])
+				}
+			}
+			_ = root.ResolveString(text, opName, vars)
+		}
+		if e := registerFields(); e != nil {
+			return e
+		}
+	}
 	runs := []sx.S{"run"}
 	for _, c := range section(secs, "calls") {
 		cl := sx.List(c)
@@ -329,7 +358,7 @@ func c02Gen(r *rand.Rand, tier string) []Case {
 				disc = 1
 			}
 		}
-		asg := []sx.S{"assignments", all("R", 1), all("A", 1), all("F", 1), all("F", disc), mix("RA", 1), mix("RF", 1), mix("RF", disc), all("F", 2)}
+		asg := []sx.S{"assignments", all("R", 1), all("A", 1), all("F", 1), all("F", disc), mix("RA", 1), mix("RF", 1), mix("RF", disc), all("F", 2), all("F", 3)}
 		// reflection over struct fields (promoted from an embedded struct) for the object types that
 		// declare no arguments and whose data is constant; reflection over methods for the others
 		elig := map[int]bool{}
